@@ -341,7 +341,7 @@ class MultiTypeMap(dict):
         htup = [(h, self.type_tuples[h]) for h in handlers]
         slf = (
             "self, "
-            if inspect.getfullargspec(handlers[0]).args[0] == "self"
+            if inspect.getfullargspec(handlers[0]).args[:1] == ["self"]
             else ""
         )
         return generate_dependent_dispatch(
